@@ -16,6 +16,7 @@ DOC = {
         'C20.R1': 'every arm of execute: maybe_lock(<path to be affected>, should_lock) dominates every mutating call and its result is propagated',
         'C20.R2': 'maybe_lock maps only ErrorKind::Unsupported to Ok(None); lock=false is the only other Ok(None)',
         'C20.R3': 'FileLock::new: write-open, then fcntl(F_SETLK, F_WRLCK) over the whole file (l_start = l_len = 0); every failure returns Err',
+        'C20.R8': 'the lock is not lost half way: a traditional fcntl record lock is released when the process closes any descriptor of the file (fs::copy of a cross-device move, the backup clone of dedupe open the locked file again), so FileLock takes a lock owned by the open file description (F_OFD_SETLK; it conflicts with the record locks of other processes all the same) - or nothing under execute() opens files again',
         'C20.R7': 'the lock is held for the duration of the operation: in every arm of execute the Option<FileLock> returned by maybe_lock is dropped only after the last mutating call of the arm (a guard bound with `let _ =` is dropped immediately, which turns the lock into a probe)',
         'C20.R6': 'taking the lock needs no permission that the operation itself does not need (removing / replacing a name needs write access to the directory, not to the file): when the write-open is denied, FileLock::new falls back to a read-only open and a lock probe instead of failing - otherwise read-only duplicates are listed by --dry-run (and removed by its script) but skipped with an error by the real run',
         'C20.R5': 'FileLock::new never opens through a symbolic link (lstat test on the false edge before the open, or O_NOFOLLOW): the commands act on the link itself, so the lock of the file it points to is irrelevant and the open fails once that file is gone - a link reported with -S whose target is dropped first was left dangling by the real run while the dry run removes it',
@@ -58,11 +59,44 @@ def run(ctx):
     if ex is not None:
         r1(ctx, lib, cg, ex)
         r7(ctx, lib, cg, ex)
+        r8(ctx, lib, cg, ex)
     r2(ctx, lib)
     r3(ctx, lib)
     r4(ctx, lib)
     r5(ctx, lib)
     r6(ctx, lib)
+
+
+def r8(ctx, lib, cg, ex):
+    """The lock stays until the guard is dropped: a traditional record lock (F_SETLK) belongs to the process and is released when the process closes
+    ANY descriptor of the file - so either the lock belongs to the open file description (F_OFD_SETLK, flock), or nothing under execute() opens files again."""
+    rule = 'C20.R8'
+    lk = ctx.need_body(rule, 'lock::FileLock::fcntl_lock')
+    if lk is None:
+        return
+    bodies = [lk] + [hb for k in lk.calls(r'^lock::FileLock::\w+$') for hb in [lib.body(k.path)] if hb is not None]
+    variants = sorted({st['rv'].get('variant') for x in bodies for blk in x.blocks for st in blk['stmts']
+                       if st['rv']['k'] == 'agg' and st['rv'].get('adt') == 'nix::fcntl::FcntlArg'})
+    flock = any(x.calls(r'nix::fcntl::flock$|^libc::flock$|Flock') for x in bodies)
+    if not variants and not flock:
+        ctx.missing(rule, 'the fcntl command of FileLock::fcntl_lock', lk.where())
+        return
+    owned_by_description = flock or (variants and all(v.startswith('F_OFD_') for v in variants))
+    # who opens files while a guard is alive: everything reachable from execute()
+    reopen = []
+    if not owned_by_description:
+        for k in sorted(cg.reachable([k_ for k_ in cg.bodies if k_[1] == ex.path] if isinstance(next(iter(cg.bodies)), tuple) else [ex.path])):
+            b = cg.bodies[k]
+            if b.path.startswith('lock::'):
+                continue
+            for c in b.calls(r'^std::fs::copy$|^std::fs::File::open$|OpenOptions::open$|^std::fs::read'):
+                reopen.append((b, c))
+    ctx.check(owned_by_description or not reopen, rule, lk.path + '|lock-survives-reopening', (reopen[0][1].where() if reopen else lk.where()),
+              ('the lock belongs to the open file description (%s): closing another descriptor of the file does not release it' % (', '.join(variants) or 'flock') if owned_by_description else
+               'a process-owned record lock, and nothing under execute() opens files again'),
+              'the lock is a traditional record lock (%s): it belongs to the process and the kernel releases it as soon as the process closes ANY descriptor of the file. %s opens the locked file '
+              'again (%d such sites under execute(): fs::copy of a cross-device move, the backup clone of dedupe) and closes it - from then on the guard guards nothing: another process gets the '
+              'lock while the copy exists and the source is about to be unlinked, and loses what it writes' % (', '.join(variants), reopen[0][0].path if reopen else '-', len(reopen)))
 
 
 def r7(ctx, lib, cg, ex):
@@ -319,9 +353,11 @@ def r3(ctx, lib):
         if ctx.floor(rule, 'fcntl call', len(fc), 1, fl.where()):
             c = fc[0]
             sl = backslice(fl, [c.args[1]])
-            setlk = any(s['rv'].get('variant') == CMD for blk in fl.blocks for s in blk['stmts'] if s['rv']['k'] == 'agg')
-            setlkw = any(s['rv'].get('variant') in ('F_SETLKW', 'F_OFD_SETLKW') for blk in fl.blocks for s in blk['stmts'] if s['rv']['k'] == 'agg')
-            ctx.check(setlk and not setlkw, rule, FN + '|cmd', c.where(), 'non-blocking %s' % CMD, 'fcntl command is not the non-blocking %s' % CMD)
+            # (the command may be chosen by a helper of FileLock: the process-owned F_SETLK or the description-owned F_OFD_SETLK, both non-blocking)
+            flh = [fl] + [hb for k in fl.calls(r'^lock::FileLock::\w+$') for hb in [lib.body(k.path)] if hb is not None]
+            cmds = {s['rv'].get('variant') for x in flh for blk in x.blocks for s in blk['stmts'] if s['rv']['k'] == 'agg' and s['rv'].get('adt') == 'nix::fcntl::FcntlArg'}
+            setlk = bool(cmds) and cmds <= {CMD, CMD.replace('F_', 'F_OFD_', 1)}
+            ctx.check(setlk, rule, FN + '|cmd', c.where(), 'non-blocking %s' % '/'.join(sorted(cmds)), 'fcntl command is not the non-blocking %s (%s)' % (CMD, sorted(cmds)))
             # l_type assigned from F_WRLCK
             wr = False
             for blk in fl.blocks:
